@@ -382,16 +382,19 @@ class Impl:
     # -- data cache -----------------------------------------------------------------------------
     def c_dc_new(self, a):
         ty, pol, ib, bb, assoc, pen = a
-        self.dc_forced = pol == "forced"
+        self.dc_forced = pol.startswith("forced")
+        real = pol.split(":")[1] if ":" in pol else pol
         cls = WriteThroughMemorySystem if ty == "wt" else WriteBackMemorySystem
         self.dc_pm = RiscvPerformanceMetrics()
-        self.dc = cls(
-            riscv_memory(), int(ib), int(bb), int(assoc), self.dc_pm, int(pen),
-            self.dc_real_policy if self.dc_forced else pol,
-        )
+        self.dc = cls(riscv_memory(), int(ib), int(bb), int(assoc), self.dc_pm, int(pen), real)
         return "ok"
 
-    dc_real_policy = "lru"
+    def model_line(self, line: str) -> str:
+        """Command sent to the model for `line`; in forced-victim mode the way the real policy is
+        about to displace is appended (read off the real policy object, a pure call)."""
+        if self.dc_forced and self.dc is not None and (line.startswith("dc.r ") or line.startswith("dc.w ")):
+            return f"{line} {self._dc_victim_hint(int(line.split()[2]))}"
+        return line
 
     def _dc_out(self, fn):
         before = self.dc_pm.cycles
@@ -539,7 +542,7 @@ class Impl:
                     target = r.flush_signal.address
                     break
             if target is not None:
-                st.program_counter = target
+                st.program_counter = target % 2**32      # as Pipeline.step does when it flushes
             return "ok"
         except Exception as ex:
             st.program_counter = cur_addr
